@@ -345,17 +345,20 @@ Wait(c, id) ==
   /\ UNCHANGED <<count, job, heap, waiter, conn, running, wake, now, stats, draining>>
 
 (* stop the server, pickle db, start again from the pickle (workq.__getstate__/__setstate__) *)
-Restart ==
+(* the outcome counters are not part of what C18 asks a restart to preserve: today's code starts
+   them at zero; a server that saved them would be just as good - st0 is what they start with *)
+RestartTo(st0) ==
   /\ WithRestart /\ Quiet
   /\ heap' = [c \in Channels |-> {s \in DOMAIN job : Bound(s) /\ ~job[s].done /\ job[s].ch = c}]
   /\ waiter' = [w \in Workers |-> [on |-> FALSE, chs |-> {}, box |-> NoJob]]
   /\ conn' = [w \in Workers |-> "idle"]
   /\ running' = [w \in Workers |-> <<>>]
   /\ wake' = <<>>
-  /\ stats' = [c \in Channels |-> ZeroStats]
+  /\ stats' = st0
   /\ fwait' = [c \in Clients |-> NoJob]
   /\ last' = [op |-> "restart"]
   /\ UNCHANGED <<count, job, id2job, now, draining>>
+Restart == RestartTo([c \in Channels |-> ZeroStats])
 
 (* Canonical representatives (sound because unused ids, and idle workers that hold nothing, are
    interchangeable): an Add uses a bound id or ONE unused id; PullStart / Disconnect by a worker
